@@ -50,8 +50,11 @@ def _run(prop: str, tree: str):
 
     mod = importlib.import_module(f"sa.rules.{prop.lower()}")
     status, ctx, errors = core.run_property(prop, mod.rules, tree, "quick")
-    fired = sorted({o.rule for o in ctx.obs if o.verdict == "violation"}) if ctx is not None and status != 2 else []
-    detail = [f"{o.rule} {o.key}" for o in (ctx.obs if ctx is not None else []) if o.verdict == "violation"][:6]
+    # violations are identified by (rule, construct key): a rule that already reports a known finding on the unchanged tree
+    # only counts as firing on a variant when it reports a *new* construct
+    viol = [o for o in (ctx.obs if ctx is not None else []) if o.verdict == "violation"]
+    fired = sorted({(o.rule, o.key) for o in viol}) if status != 2 else []
+    detail = {(o.rule, o.key): f"{o.rule} {o.key}" for o in viol}
     return status, fired, errors, detail
 
 
@@ -75,20 +78,22 @@ def _one_variant(args):
             fh.write(new_src)
         status, fired, errors, detail = _run(prop, tmp)
         new = [r for r in fired if r not in baseline]
+        new_rules = sorted({r for r, _ in new})
+        new_detail = [detail[k] for k in new][:6]
         if v["fires"] is None:
             if status == 2:
                 return v["id"], "false_alarm", f"silent variant made the analyser give up: {errors[:2]}"
             if new:
-                return v["id"], "false_alarm", f"silent variant fired {new}: {detail}"
+                return v["id"], "false_alarm", f"silent variant fired {new_rules}: {new_detail}"
             return v["id"], "silent_ok", ""
         if status == 2:
             # giving up on a broken variant is tolerated only if explicitly expected
             if v["fires"] == "ANALYSIS-ERROR":
                 return v["id"], "fired", "analysis error (expected)"
             return v["id"], "missed", f"analysis error instead of a violation: {errors[:2]}"
-        if v["fires"] in fired:
-            return v["id"], "fired", "; ".join(detail[:2])
-        return v["id"], "missed", f"expected {v['fires']}, fired {fired}"
+        if v["fires"] in new_rules:
+            return v["id"], "fired", "; ".join([d for d in new_detail if d.startswith(v["fires"] + " ")][:2])
+        return v["id"], "missed", f"expected {v['fires']}, newly fired {new_rules}"
     except Exception as e:  # pragma: no cover
         return v["id"], "error", f"{type(e).__name__}: {e}"
     finally:
@@ -109,14 +114,15 @@ def _one_seeded(args):
             return "seeded/" + sid, "skipped", "patch does not apply to the current tree"
         status, fired, errors, detail = _run(prop, tmp)
         new = [r for r in fired if r not in baseline]
+        new_rules = sorted({r for r, _ in new})
         expected = meta.get("caught_by", {}).get(prop)
         if expected is None:
-            return "seeded/" + sid, "not_claimed", f"fired {new}"
+            return "seeded/" + sid, "not_claimed", f"fired {new_rules}"
         if status == 2:
             return "seeded/" + sid, "missed", f"analysis error: {errors[:2]}"
-        if any(e in fired for e in expected):
-            return "seeded/" + sid, "fired", "; ".join(detail[:2])
-        return "seeded/" + sid, "missed", f"expected one of {expected}, fired {fired}"
+        if any(e in new_rules for e in expected):
+            return "seeded/" + sid, "fired", "; ".join([detail[k] for k in new if k[0] in expected][:2])
+        return "seeded/" + sid, "missed", f"expected one of {expected}, newly fired {new_rules}"
     except Exception as e:  # pragma: no cover
         return "seeded/" + sid, "error", f"{type(e).__name__}: {e}"
     finally:
